@@ -73,6 +73,24 @@ def unq(s):
     return "".join(out)
 
 
+def derived_features(py_src, r):
+    """features computed from an observed mismatch: `unused-raising-def` = the Python oracle stopped with an exception on a
+    line that defines a top-level variable which no later line mentions (the compiler drops such definitions from -o 1 on)"""
+    out = []
+    m = re.findall(r'oracle\.py", line (\d+), in <module>', r.get("py_err", ""))
+    if m and r.get("py_class", "").startswith("runtime-exc:"):
+        lines = py_src.split("\n")
+        ln = int(m[-1])
+        if 1 <= ln <= len(lines):
+            d = re.match(r"^(\(?[A-Za-z_][A-Za-z0-9_]*(?:, [A-Za-z_][A-Za-z0-9_]*)*\)?) = ", lines[ln - 1])
+            if d:
+                names = re.findall(r"[A-Za-z_][A-Za-z0-9_]*", d.group(1))
+                rest = "\n".join(lines[ln:])
+                if all(not re.search(r"\b" + re.escape(n) + r"\b", rest) for n in names):
+                    out.append("unused-raising-def")
+    return out
+
+
 def known_behavioural(ctx, feats, r):
     """attribute a behavioural mismatch to a listed finding: the program must have the finding's feature AND the mismatch
     must have the recorded signature"""
@@ -97,8 +115,8 @@ def run(ctx):
     ctx.assumptions = ["target 3.11 for the proved stage; CPython 3.11.7 is the reference interpreter",
                        "the Python oracle program is emitted from the generator's tree, independently of erg's transpiler"]
     thorough = ctx.tier == "thorough"
-    nA = 3000 if thorough else 250
-    nB = 4000 if thorough else 220
+    nA = 3000 if thorough else 150
+    nB = 4000 if thorough else 150
     proof = core.proof_stage(ctx, "C01", ["ErgVerif.C01.Props", "ergmodel_c01"])
     ok_h, hlog, bindir = core.cargo_build(["c01"])
     ok_e, elog, erg = core.erg_binary()
@@ -115,7 +133,7 @@ def run(ctx):
         g = fraggen.Gen(fraggen.Rng(ctx.seed * 7919 + i), stage1=True, zero_div=(i % 4 == 0), big_lits=(i % 3 == 0),
                         hard_strings=(i % 5 == 0))
         p = g.program()
-        progsA.append((f"a{i}", fraggen.to_erg(p), fraggen.to_python(p), sorted(g.features)))
+        progsA.append((f"a{i}", fraggen.to_erg(p), fraggen.to_python(p), sorted(g.features | fraggen.tree_features(p))))
     corpus = core.corpus_rows("C01")
     rowsin = [(cid, inp) for cid, inp in corpus if inp.startswith("(src ")] + [(pid, "(src " + core.quote(src) + ")") for pid, src, _, _ in progsA]
     _, rows, herr = core.run_harness(bindir, "c01", ["replay"], stdin="".join(f"{a}\t{b}\n" for a, b in rowsin))
@@ -159,7 +177,7 @@ def run(ctx):
     for i in range(nB):
         g = fraggen.Gen(fraggen.Rng(ctx.seed * 104729 + 500000 + i), big_lits=(i % 2 == 0), hard_strings=(i % 4 == 0))
         p = g.program()
-        progsB.append((f"b{i}", fraggen.to_erg(p), fraggen.to_python(p), sorted(g.features)))
+        progsB.append((f"b{i}", fraggen.to_erg(p), fraggen.to_python(p), sorted(g.features | fraggen.tree_features(p))))
     realB = fragrun.run_programs([(pid, src, py) for pid, src, py, _ in progsB], erg)
     classes = {}
     feats_hist = {}
@@ -184,7 +202,7 @@ def run(ctx):
     known_hits = {}
     unexplained = []
     for pid, src, py, feats, r in oracle_mismatch:
-        e = known_behavioural(ctx, feats, r)
+        e = known_behavioural(ctx, list(feats) + derived_features(py, r), r)
         if e:
             known_hits.setdefault(e["id"], []).append(pid)
         else:
